@@ -38,6 +38,8 @@ def rewrite_old(src):
 def module_name(relfile):
     if relfile == 'Lib/bisect.py':
         return 'bisect'
+    if relfile.startswith('verif:'):
+        return relfile[6:-3].replace('/', '.')
     return relfile[:-3].replace('/', '.')
 
 
